@@ -71,6 +71,24 @@ class Genomes:
 			self.items.append(dict(path=p, contigs=contigs, label=expected_label(name), name=name))
 		self._sig = {}
 
+	def add_collision(self, i):
+		"""A DIFFERENT genome whose file yields the same label as item i (same name in another directory, or the same stem with another
+		FASTA extension). -> index of the new item."""
+		rng = self.rng
+		it = self.items[i]
+		t = len(self.items)
+		if rng.random() < 0.5 or not it['label']:
+			rel = f'dup{t}/{it["name"]}'
+		else:
+			rel = f'dup{t}/{it["label"]}{rng.choice([".fasta", ".fna", ".fa", ".fa.gz"])}'
+		p = self.dir / rel
+		p.parent.mkdir(parents=True, exist_ok=True)
+		contigs = rand_genome(rng) if rng.random() < 0.6 else rand_genome(rng, base=it['contigs'], rate=0.1)
+		write_fasta(p, contigs, gz=rel.endswith('.gz'))
+		self.items.append(dict(path=p, contigs=contigs, label=expected_label(os.path.basename(rel)), name=rel))
+		assert self.items[-1]['label'] == it['label'], (self.items[-1]['label'], it['label'])
+		return t
+
 	def sig(self, i, k, prefix):
 		key = (i, k, prefix)
 		if key not in self._sig:
